@@ -224,22 +224,51 @@ Print Assumptions C06_multi_inverse_SO.
 Definition trinv2_ref (A : M33 R) : M33 R :=
   rt2tr2 Rops (mtr22 (t2r2 A)) (vneg2 Rops (mv22 Rops (mtr22 (t2r2 A)) (transl2 A))).
 
+(* SE2.inv() is [R', -R' t] with last row (0,0,1) for EVERY 3x3 input (since fix 1c511ed it is built with check=False
+   and traces without a path condition); X.inv() * v is that matrix applied to v *)
+Theorem C06_SE2_inv_structure : forall (X : M33 R) (v : V2 R),
+  tr_SE2_inv Rops X = trinv2_ref X /\ hom3 (tr_SE2_inv Rops X) /\ tr_SE2_invv Rops X v = act2 (trinv2_ref X) v.
+Proof.
+  intros X v. assert (E : tr_SE2_inv Rops X = trinv2_ref X) by (unfold trinv2_ref; gen_field).
+  split; [exact E|]. split.
+  - rewrite E. destruct_tuples. unfold hom3, trinv2_ref. gen_unfold. reflexivity.
+  - unfold trinv2_ref. gen_field.
+Qed.
+Print Assumptions C06_SE2_inv_structure.
+
+Lemma act2_inverse : forall (X : M33 R) (p : V2 R), SE2 X -> act2 (trinv2_ref X) (act2 X p) = p.
+Proof.
+  intros X p [HR _]. destruct_tuples. simpl in HR. pose proof (SO2_columns _ _ _ _ HR) as (?&?&?).
+  unfold SO2 in HR. destruct HR as (?&?&?&?). unfold trinv2_ref. gen_unfold. tuple_eq ltac:(nsatz).
+Qed.
+
 Theorem C06_SE2_inverse : forall (X : M33 R) (p : V2 R), SE2 X ->
-  tr_SE2_inv Rops X = trinv2_ref X /\
   tr_SE2_v Rops (tr_SE2_inv Rops X) (tr_SE2_v Rops X p) = p /\ tr_SE2_invv Rops X (tr_SE2_v Rops X p) = p.
 Proof.
-  intros X p H. pose proof (SE2_hom X H) as Hh. destruct H as [HR _].
-  assert (E : tr_SE2_inv Rops X = trinv2_ref X) by (revert Hh; unfold trinv2_ref; gen_field).
-  assert (Hi : hom3 (trinv2_ref X)) by (destruct_tuples; unfold hom3, trinv2_ref; gen_unfold; reflexivity).
-  split; [exact E|].
-  assert (A : act2 (trinv2_ref X) (act2 X p) = p).
-  { destruct_tuples. simpl in HR. pose proof (SO2_columns _ _ _ _ HR) as (?&?&?). unfold SO2 in HR. destruct HR as (?&?&?&?).
-    clear Hh Hi E. unfold trinv2_ref. gen_unfold. tuple_eq ltac:(nsatz). }
+  intros X p H. pose proof (SE2_hom X H) as Hh.
+  destruct (C06_SE2_inv_structure X (tr_SE2_v Rops X p)) as (E & Hi & Ev).
   split.
-  - rewrite E, (C06_SE2_point _ _ Hi), (C06_SE2_point _ _ Hh). exact A.
-  - rewrite (C06_SE2_point _ _ Hh). rewrite <- A at 2. revert Hh. generalize (act2 X p). unfold trinv2_ref. gen_field.
+  - rewrite (C06_SE2_point _ _ Hi), E, (C06_SE2_point _ _ Hh). apply act2_inverse; exact H.
+  - rewrite Ev, (C06_SE2_point _ _ Hh). apply act2_inverse; exact H.
 Qed.
 Print Assumptions C06_SE2_inverse.
+
+(* multi-valued SE2 inverse (traced with the last rows literally (0,0,1), see props/C06.py minv_of): value k, applied to a
+   point, is the structured inverse of value k applied to it; hence it undoes value k *)
+Theorem C06_multi_inverse_SE2 : forall (X0 X1 : M33 R) (v : V2 R),
+  tr_SE2_minv2_c0 Rops X0 X1 v = act2 (trinv2_ref X0) v /\ tr_SE2_minv2_c1 Rops X0 X1 v = act2 (trinv2_ref X1) v.
+Proof. intros X0 X1 v. split; unfold trinv2_ref; gen_field. Qed.
+Print Assumptions C06_multi_inverse_SE2.
+
+Theorem C06_multi_inverse_undoes_SE2 : forall (X0 X1 : M33 R) (p : V2 R), SE2 X0 -> SE2 X1 ->
+  tr_SE2_minv2_c0 Rops X0 X1 (tr_SE2_v Rops X0 p) = p /\ tr_SE2_minv2_c1 Rops X0 X1 (tr_SE2_v Rops X1 p) = p.
+Proof.
+  intros X0 X1 p H0 H1.
+  destruct (C06_multi_inverse_SE2 X0 X1 (tr_SE2_v Rops X0 p)) as [-> _].
+  destruct (C06_multi_inverse_SE2 X0 X1 (tr_SE2_v Rops X1 p)) as [_ ->].
+  rewrite (C06_SE2_point _ _ (SE2_hom _ H0)), (C06_SE2_point _ _ (SE2_hom _ H1)). split; apply act2_inverse; assumption.
+Qed.
+Print Assumptions C06_multi_inverse_undoes_SE2.
 
 Theorem C06_SO2_inverse : forall (X : M22 R) (p : V2 R), SO2 X -> tr_SO2_invv Rops X (tr_SO2_v Rops X p) = p.
 Proof.
